@@ -5,7 +5,7 @@ Statements are about the executable model of `_Connector` in `Model.lean` (tied 
 the correspondence check) and quantify over every address list, every synchronous-failure pattern and every
 sequence of events (batches of connect completions, timer firings).
 -/
-import TornadoModel.C10.Lemmas
+import TornadoModel.C10.Check
 namespace TornadoModel.C10
 
 /-- once the connector's future has been completed no event changes it any more -/
@@ -39,23 +39,13 @@ theorem resolved_once (addrs : List Addr) (ct : Bool) (evs : List Event) :
   apply run_settles_le
   rcases start_settles addrs ct with h | ⟨o, h, _⟩ <;> simp [h]
 
-theorem getElem?_modifyNth {α} (f : α → α) (l : List α) (n : Nat) :
-    (modifyNth f l n)[n]? = (l[n]?).map f := by
-  induction l generalizing n with
-  | nil => simp [modifyNth]
-  | cons x xs ih =>
-    cases n with
-    | zero => simp [modifyNth]
-    | succ n => simp [modifyNth, ih]
-
 /-- **winner_is_first_success** — if the future is still pending and the connect of an in-flight stream `s`
 succeeds, the future completes with exactly that stream and its address … -/
 theorem winner_step (st : St) (s : Nat) (x : Stream) (hs : st.streams[s]? = some x)
     (hp : x.fut = .pending) (hd : x.delivered = false) (h0 : st.settles = []) :
     (step st (.batch [.succ s])).settles = [.ok x.addr.idx s] := by
   have hc : complete st (.succ s) = updStream st s (fun x => { x with fut := .ok }) := by
-    have hb : (Fut.pending == Fut.pending) = true := by decide
-    simp [complete, Compl.stream, hs, inflight, hp, hb]
+    simp [complete, Compl.stream, hs, inflight, hp]
   simp only [step, List.foldl, hc]
   have hs' : (updStream st s (fun x => { x with fut := .ok })).streams[s]? = some { x with fut := .ok } := by
     simp [updStream, getElem?_modifyNth, hs]
@@ -134,11 +124,6 @@ theorem fail_only_from_failure_or_tick (st : St) (e : Event) (o : Outcome) (h0 :
     simp [isTimeout, hk] at h3
 
 /-! ### no stream is opened once the future is done -/
-
-theorem length_modifyNth {α} (f : α → α) (l : List α) (n : Nat) : (modifyNth f l n).length = l.length := by
-  induction l generalizing n with
-  | nil => rfl
-  | cons x xs ih => cases n <;> simp [modifyNth, ih]
 
 theorem closeStream_length (st : St) (s : Nat) : (closeStream st s).streams.length = st.streams.length := by
   unfold closeStream
@@ -223,7 +208,7 @@ theorem no_new_streams_after_done (st : St) (e : Event) (h : st.settles ≠ []) 
   | tick =>
     simp only [step]
     split
-    · simp [onTimeout, St.done] at hd ⊢; simp [St.done, hd]
+    · simp [onTimeout, St.done] at hd ⊢; simp [hd]
     · rfl
   | ctick =>
     simp only [step]
@@ -284,29 +269,167 @@ example :
     Spec.check addrs [.batch [.fail 0]] [s0, s1] = 8 ∧ Spec.check addrs [.batch [.fail 0]] [s0, s1'] = 6 := by
   decide
 
-/-! ## goals not proved (the correspondence stream and the Spec oracle check them on every run) -/
+/-! ## consequences of the accounting invariant (`Inv`, files Inv2–Inv4, `inv_run`)
 
-/-- at quiescence, once the future is done every stream other than the winner is closed -/
-def losers_closed_goal : Prop :=
-  ∀ (l : List (Nat × Nat × Bool)) (ct : Bool) (evs : List Event),
-    Spec.clause4 (Spec.snapOf (run (start (mkNamed l) ct) evs)) = true
+`remaining = |entries still queued in either iterator / the secondary list| + #{streams whose on_connect_done has
+not run}`; attempted ++ queued entries are a permutation of `addrinfo` (one attempt per ENTRY, repeated addresses
+included); every opened stream is the winner, closed, or still in flight; at most one undelivered stream per
+iterator, at most two iterators.  Proved as a step invariant over all event sequences. -/
 
-/-- at most one attempt per family in flight (address lists over two families) -/
-def one_inflight_per_family_goal : Prop :=
-  ∀ (l : List (Nat × Nat × Bool)) (ct : Bool) (evs : List Event), (∀ p ∈ l, p.1 ≤ 1) →
-    Spec.clause5 (mkNamed l) (Spec.snapOf (run (start (mkNamed l) ct) evs)) = true
+/-- **inv_reachable** — the invariant holds after `start()` and after every sequence of events -/
+theorem inv_reachable (addrs : List Addr) (ct : Bool) (evs : List Event) :
+    Inv addrs (run (start addrs ct) evs) := inv_run addrs ct evs
 
-/-- an error outcome other than the timeout means every entry (repeated addresses included) was tried and failed -/
-def error_iff_all_failed_goal : Prop :=
-  ∀ (l : List (Nat × Nat × Bool)) (ct : Bool) (evs : List Event) (o : Outcome),
+/-- the accounting identity itself, for every reachable state (address lists may repeat addresses) -/
+theorem remaining_accounting (addrs : List Addr) (ct : Bool) (evs : List Event) :
+    (run (start addrs ct) evs).remaining
+      = ((queued (run (start addrs ct) evs)).length : Int)
+        + (((run (start addrs ct) evs).streams.countP (fun x => !x.delivered) : Nat) : Int) :=
+  (inv_run addrs ct evs).core.acct
+
+/-- in every reachable state a stream whose connect future is pending has not been delivered — this discharges
+the hypothesis `delivered = false` of `winner_step` / `winner_is_first_success` -/
+theorem inflight_undelivered (addrs : List Addr) (ct : Bool) (evs : List Event) (s : Nat) (x : Stream)
+    (hs : (run (start addrs ct) evs).streams[s]? = some x) (hp : x.fut = .pending) : x.delivered = false :=
+  (inv_run addrs ct evs).core.pend x (List.mem_of_getElem? hs) hp
+
+/-- **winner_step_reachable** — `winner_step` for reachable states, without the `delivered = false` hypothesis -/
+theorem winner_step_reachable (addrs : List Addr) (ct : Bool) (evs0 : List Event) (s : Nat) (x : Stream)
+    (hs : (run (start addrs ct) evs0).streams[s]? = some x) (hp : x.fut = .pending)
+    (h0 : (run (start addrs ct) evs0).settles = []) :
+    (step (run (start addrs ct) evs0) (.batch [.succ s])).settles = [.ok x.addr.idx s] :=
+  winner_step _ s x hs hp (inflight_undelivered addrs ct evs0 s x hs hp) h0
+
+/-- **winner_is_first_success_reachable** — after any history `evs0` that leaves the future pending, the success
+of an in-flight stream `s` completes the future with exactly `(addr s, s)`, whatever happens afterwards -/
+theorem winner_is_first_success_reachable (addrs : List Addr) (ct : Bool) (evs0 : List Event) (s : Nat)
+    (x : Stream) (hs : (run (start addrs ct) evs0).streams[s]? = some x) (hp : x.fut = .pending)
+    (h0 : (run (start addrs ct) evs0).settles = []) (evs : List Event) :
+    (run (run (start addrs ct) evs0) (.batch [.succ s] :: evs)).settles = [.ok x.addr.idx s] :=
+  winner_is_first_success _ s x hs hp (inflight_undelivered addrs ct evs0 s x hs hp) h0 evs
+
+/-- non-vacuity: after the fallback timer two attempts are in flight and the future is pending -/
+example :
+    let st := run (start (mkNamed [(0, 7, false), (1, 7, false)]) true) [.tick]
+    st.settles = [] ∧ st.streams.map (·.fut) = [.pending, .pending] := by decide
+
+/-- **losers_closed** (clause 4) — at quiescence, once the future is done every stream other than the winner is
+closed and the winner is open; after an error / timeout every stream is closed.  No socket leaks on any schedule. -/
+theorem losers_closed : ∀ (l : List (Nat × Nat × Bool)) (ct : Bool) (evs : List Event),
+    Spec.clause4 (Spec.snapOf (run (start (mkNamed l) ct) evs)) = true :=
+  fun l ct evs => clause4_of_inv (inv_run (mkNamed l) ct evs) (resolved_once _ ct evs)
+
+/-- clause 5 for address lists over any number of families: at most one in-flight attempt per family -/
+theorem one_inflight_per_family_general (l : List (Nat × Nat × Bool)) (ct : Bool) (evs : List Event) :
+    Spec.clause5 (mkNamed l) (Spec.snapOf (run (start (mkNamed l) ct) evs)) = true :=
+  clause5_of_core (inv_run (mkNamed l) ct evs).core (mkNamed_nodup l)
+
+/-- **one_inflight_per_family** (clause 5) — at most one attempt per family in flight (address lists over two families) -/
+theorem one_inflight_per_family : ∀ (l : List (Nat × Nat × Bool)) (ct : Bool) (evs : List Event),
+    (∀ p ∈ l, p.1 ≤ 1) →
+      Spec.clause5 (mkNamed l) (Spec.snapOf (run (start (mkNamed l) ct) evs)) = true :=
+  fun l ct evs _ => one_inflight_per_family_general l ct evs
+
+/-- non-vacuity: two families, both attempts in flight after the timer — one per family -/
+example : (∀ p ∈ [(0, 7, false), (1, 7, false), (0, 8, false)], p.1 ≤ 1)
+    ∧ ((run (start (mkNamed [(0, 7, false), (1, 7, false), (0, 8, false)]) true) [.tick]).streams.map
+        (fun x => (x.addr.fam, x.fut))) = [(0, .pending), (1, .pending)] := by decide
+
+/-- **error_iff_all_failed** — an error outcome other than the timeout means every entry (repeated addresses
+included) was tried and failed -/
+theorem error_iff_all_failed : ∀ (l : List (Nat × Nat × Bool)) (ct : Bool) (evs : List Event) (o : Outcome),
     (run (start (mkNamed l) ct) evs).settles = [o] → kindOf o = .fail →
       (run (start (mkNamed l) ct) evs).streams.length = l.length
-        ∧ ∀ x ∈ (run (start (mkNamed l) ct) evs).streams, x.fut = .err
+        ∧ ∀ x ∈ (run (start (mkNamed l) ct) evs).streams, x.fut = .err := by
+  intro l ct evs o h hk
+  have := (inv_run (mkNamed l) ct evs).sett.sfl o h hk
+  rw [mkNamed_length] at this
+  exact this
+
+/-- non-vacuity: the same address listed twice, both attempts fail → `last_error` -/
+example :
+    (run (start (mkNamed [(0, 7, false), (0, 7, false)]) false) [.batch [.fail 0], .batch [.fail 1]]).settles
+      = [.lastError 1] ∧ kindOf (.lastError 1) = .fail := by decide
+
+/-- **quiescent_inflight** — after `start()` and after every event, a stream whose `on_connect_done` has not run is
+still in flight (every completion of a batch is delivered within the batch) -/
+theorem quiescent_inflight (addrs : List Addr) (ct : Bool) (evs : List Event) :
+    ∀ x ∈ (run (start addrs ct) evs).streams, x.delivered = false → x.fut = .pending :=
+  q1_run addrs ct evs
+
+/-- **completes_when_idle** (clause 6, liveness) — at quiescence, when no attempt is in flight and neither timer
+is live, the future has completed: the connect never hangs -/
+theorem completes_when_idle (l : List (Nat × Nat × Bool)) (ct : Bool) (evs : List Event) :
+    Spec.clause6 (Spec.snapOf (run (start (mkNamed l) ct) evs)) = true :=
+  clause6_of (inv_run (mkNamed l) ct evs) (q1_run _ ct evs) (post_run _ ct evs)
+
+/-- **all_failed_completes** (clause 8) — when every address of the list (repeated addresses included) has a failed
+attempt and nothing is in flight, the future has completed — also while the connect timer is still pending -/
+theorem all_failed_completes (l : List (Nat × Nat × Bool)) (ct : Bool) (evs : List Event) :
+    Spec.clause8 (mkNamed l) (Spec.snapOf (run (start (mkNamed l) ct) evs)) = true :=
+  clause8_of (inv_run (mkNamed l) ct evs) (mkNamed_nodup l) (q1_run _ ct evs) (post_run _ ct evs)
+
+/-! ## the whole checker on the model's own runs -/
 
 /-- the whole observed-run checker (clauses 1–8) holds of the model's own runs, for lists that may repeat addresses -/
 def model_run_ok_goal : Prop :=
   ∀ (l : List (Nat × Nat × Bool)) (ct : Bool) (evs : List Event), l ≠ [] → (∀ p ∈ l, p.1 ≤ 1) →
     Spec.check (mkNamed l) evs
       ((start (mkNamed l) ct :: trace (start (mkNamed l) ct) evs).map Spec.snapOf) = 0
+
+/-- as stated the goal is false: a batch in which the environment first FAILS the connect of stream 0 and then
+reports a success of the same stream (a connect future completing twice — excluded by the harness's assumption
+"a connect future completes at most once").  The model ignores the second completion, the oracle's `firstSuccess`
+does not look at earlier completions of the same batch and demands an `ok` outcome (clause 2).  An artefact of the
+oracle on ill-formed schedules, not a defect of `_Connector`. -/
+theorem model_run_ok_refuted : ¬ model_run_ok_goal := by
+  intro h
+  have := h [(0, 7, false)] false [.batch [.fail 0, .succ 0]] (by decide) (by decide)
+  revert this
+  decide
+
+/-- **model_run_ok_partial** — the whole observed-run checker (clauses 1–8: completed at most once; the FIRST delivered
+success wins; errors only after the connect timer or when every address has failed; losers closed; one attempt per
+family; liveness; one stream per list entry) accepts every run of the model, for address lists that may repeat
+addresses, on every schedule in which no batch reports a stream failed and later in the same batch succeeded
+(decidable side condition `wfEvents`; a connect future completes once) -/
+theorem model_run_ok_partial : ∀ (l : List (Nat × Nat × Bool)) (ct : Bool) (evs : List Event), l ≠ [] →
+    (∀ p ∈ l, p.1 ≤ 1) → wfEvents evs = true →
+    Spec.check (mkNamed l) evs
+      ((start (mkNamed l) ct :: trace (start (mkNamed l) ct) evs).map Spec.snapOf) = 0 := by
+  intro l ct evs hne _ hwf
+  have hne' : mkNamed l ≠ [] := by
+    intro h
+    have := mkNamed_length l
+    rw [h] at this
+    exact hne (List.eq_nil_of_length_eq_zero this.symm)
+  exact check_of hne' (mkNamed_nodup l) ct evs hwf
+
+/-- non-vacuity: a well-formed schedule with a two-completion batch, a late arrival and both timers; the refuting
+schedule of `model_run_ok_refuted` is exactly what `wfEvents` excludes -/
+example : wfEvents [.tick, .batch [.fail 0, .succ 1], .batch [.succ 2], .ctick] = true
+    ∧ wfEvents [.batch [.fail 0, .succ 0]] = false
+    ∧ (run (start (mkNamed [(0, 7, false), (1, 7, false), (0, 7, false)]) true)
+        [.tick, .batch [.fail 0, .succ 1], .batch [.succ 2], .ctick]).settles = [.ok 1 1] := by decide
+
+/-- **first_success_wins** (clause 2) — in every reachable pending state, a batch of completions (no stream failed and
+then succeeded within it) completes the future with the first success that names an in-flight stream, and with no
+result if there is none -/
+theorem first_success_wins (addrs : List Addr) (ct : Bool) (evs0 : List Event) (cs : List Compl)
+    (h0 : (run (start addrs ct) evs0).settles = []) (hwf : noFailThenSucc cs = true) :
+    Spec.clause2 (Spec.snapOf (run (start addrs ct) evs0)) (.batch cs)
+      (Spec.snapOf (step (run (start addrs ct) evs0) (.batch cs))) = true :=
+  clause2_batch (inv_run addrs ct evs0) (q1_run addrs ct evs0) h0 cs hwf
+
+/-- non-vacuity: a pending state and a batch whose first completion is a failure, the second the winning success -/
+example : (run (start (mkNamed [(0, 7, false), (1, 7, false)]) true) [.tick]).settles = []
+    ∧ noFailThenSucc [.fail 0, .succ 5, .succ 1, .succ 0] = false ∧ noFailThenSucc [.fail 0, .succ 5, .succ 1] = true
+    ∧ (step (run (start (mkNamed [(0, 7, false), (1, 7, false)]) true) [.tick])
+        (.batch [.fail 0, .succ 5, .succ 1])).settles = [.ok 1 1] := by decide
+
+/-- **one_stream_per_entry** (clause 7) — streams are opened only for entries of the list, at most one per entry -/
+theorem one_stream_per_entry (l : List (Nat × Nat × Bool)) (ct : Bool) (evs : List Event) :
+    Spec.clause7 (mkNamed l) (Spec.snapOf (run (start (mkNamed l) ct) evs)) = true :=
+  clause7_of (inv_run (mkNamed l) ct evs).core (mkNamed_nodup l)
 
 end TornadoModel.C10
